@@ -207,15 +207,17 @@ func (tw *TimingWheel) moveTask(task baseEntry) {
 		return
 	}
 
-	pos, circle := tw.getPositionAndCircle(task.delay)
-	if pos >= timer.pos {
-		timer.item.circle = circle
-		timer.item.diff = pos - timer.pos
-	} else if circle > 0 {
-		circle--
-		timer.item.circle = circle
-		timer.item.diff = tw.numSlots + pos - timer.pos
+	steps := int(task.delay / tw.interval)
+	// wait is the number of ticks until the slot holding the task is scanned again
+	wait := (timer.pos - tw.tickedPos + tw.numSlots) % tw.numSlots
+	if wait == 0 {
+		wait = tw.numSlots
+	}
+	if steps >= wait {
+		timer.item.circle = (steps - wait) / tw.numSlots
+		timer.item.diff = (steps - wait) % tw.numSlots
 	} else {
+		pos, _ := tw.getPositionAndCircle(task.delay)
 		timer.item.removed = true
 		newItem := &timingEntry{
 			baseEntry: task,
